@@ -1042,6 +1042,29 @@ def _discharge_division(F, b, tb, i, t, dv):
     for cond, val, s in guards_of(b, tb, i):
         if _nonzero_guard(cond, val, dv):
             return "dominated by a `divisor != 0` test on the same value"
+    # the divisor is a parameter of a small helper: every caller must hand it a value it has tested `!= 0`
+    if isinstance(dv, tuple) and dv and dv[0] == "param" and b.kind in ("fn", "method") and dv[1] < b.argc:
+        sites = [(cb, ci, ct) for cb, ci, ct in F.call_sites(lambda cal, bid=b.id: cal == bid) if user_written(F, cb)]
+        if sites:
+            ok_all = True
+            for cb, ci, ct in sites:
+                ctb = Terms(F, cb, inline_depth=0)
+                a = ctb.operand(ct["args"][dv[1]])
+                ok = any(_nonzero_guard(cond, val, a) for cond, val, s in guards_of(cb, ctb, ci))
+                if not ok and cb.kind == "closure" and cb.parent in F.bodies and isinstance(a, tuple) and len(a) == 3 and a[0] == "field" \
+                        and isinstance(a[1], tuple) and a[1] and a[1][0] == "param" and a[1][1] == 0:
+                    pb = F.bodies[cb.parent]
+                    ptb = Terms(F, pb, inline_depth=0)
+                    for pi, psi, ps in pb.assigns():
+                        if ps["rv"]["k"] == "closure" and ps["rv"]["id"] == cb.id:
+                            try:
+                                cap = ptb.operand(ps["rv"]["ops"][int(a[2])])
+                            except (ValueError, IndexError):
+                                continue
+                            ok = ok or any(_nonzero_guard(cond, val, cap) for cond, val, s in guards_of(pb, ptb, pi))
+                ok_all = ok_all and ok
+            if ok_all:
+                return "the divisor is a parameter and every caller passes a value it tested `!= 0`"
     # inside a closure: the divisor is a captured value that the enclosing function tested before creating the closure
     if b.kind == "closure" and b.parent in F.bodies:
         u = None
